@@ -7,4 +7,6 @@ CONSTANTS
   MaxVals = 3
   HookDepth = 2
   OwnBytes = TRUE
+  Nodes = {"a", "b"}
+  ConnConfig = "live"
 CHECK_DEADLOCK FALSE
